@@ -96,8 +96,20 @@ func (w *World) decode(dst *roaring.Bitmap, data []byte, e int, seed uint64, pro
 	switch e {
 	case 0:
 		rd := &simio.ChunkedReader{Data: append(append([]byte(nil), data...), sentinel...), Sizes: chunkSizes(seed), ErrAt: -1, EOFWith: r.Bool()}
-		p, err = dst.ReadFrom(rd)
-		pulled = rd.Pulled
+		if seed>>20&3 == 0 && len(data) >= 4 && prop != "C10" {
+			// the documented argument form for a caller that has already consumed the cookie:
+			// ReadFrom(rest, cookie...) - the count it returns is that of the rest
+			w.probe("readfrom-with-cookie-header")
+			rd.Data = rd.Data[4:]
+			p, err = dst.ReadFrom(rd, data[0], data[1], data[2], data[3])
+			if err == nil {
+				p += 4
+			}
+			pulled = rd.Pulled + 4
+		} else {
+			p, err = dst.ReadFrom(rd)
+			pulled = rd.Pulled
+		}
 		scribble(rd.Data) // the stream's storage is gone once the call has returned
 	case 1, 2:
 		buf := data
